@@ -1,9 +1,9 @@
-SPECIFICATION Spec
+SPECIFICATION TSpec
 CONSTANTS
   N = 3
   RD = 2
   CAP = 2
-  MaxOps = 4
+  MaxOps = 12
   FaultAt = 0
   KeepStaleOnFail = FALSE
   PanicOnMiss = FALSE
@@ -12,8 +12,9 @@ CONSTANTS
   SilentSeekHit = FALSE
   EarlyReturnOnForeign = FALSE
   KeepCurAfterKeep = FALSE
-  KeepOnGet = FALSE
-  Foreign = {2, 3}
+  KeepOnGet = TRUE
+  Foreign = {}
   RealCache = FALSE
-INVARIANTS NoPanic DataIdentity ErrorsTrue NoStaleMapping CacheBounded Capacities NoLeak
-CHECK_DEADLOCK TRUE
+CONSTRAINT HWM
+POSTCONDITION PostHWM
+CHECK_DEADLOCK FALSE
